@@ -181,4 +181,31 @@ theorem Foreign.notStop {c : Nat} {fr : Frame} (h : Foreign c fr) : isStop c fr 
   | false => rfl
   | true => have := isStop_stream hd; rw [h.1] at this; cases this
 
+
+/-! ### CONNECT frames -/
+
+def nConnect (c : Nat) (q : List Frame) : Nat := q.countP (isConnect c)
+
+theorem nConnect_append (c : Nat) (a b : List Frame) : nConnect c (a ++ b) = nConnect c a + nConnect c b := by
+  simp [nConnect, List.countP_append]
+
+theorem nConnect_single (c : Nat) (fr : Frame) : nConnect c [fr] = if isConnect c fr then 1 else 0 := by
+  simp [nConnect, List.countP_cons]
+
+theorem nConnect_cons (c : Nat) (fr : Frame) (rest : List Frame) :
+    nConnect c (fr :: rest) = nConnect c rest + (if isConnect c fr then 1 else 0) := by
+  simp [nConnect, List.countP_cons]
+
+theorem nConnect_zero_of (c : Nat) (q : List Frame) (h : ∀ fr ∈ q, isConnect c fr = false) : nConnect c q = 0 := by
+  simp only [nConnect, List.countP_eq_zero]
+  intro fr hfr; rw [h fr hfr]; simp
+
+theorem isConnect_of_nConnect_zero {c : Nat} {q : List Frame} (h : nConnect c q = 0) :
+    ∀ fr ∈ q, isConnect c fr = false := by
+  simp only [nConnect, List.countP_eq_zero] at h
+  intro fr hfr
+  cases hc : isConnect c fr with
+  | false => rfl
+  | true => exact absurd hc (h fr hfr)
+
 end Sshuttle.Tunnel
